@@ -104,6 +104,7 @@ structure Good (E : Env) (P : Nat) (w : World) : Prop where
   templ : ∀ t, w.Cores t → copyKind t → t.dv.getD noneId < w.ctx.alloc
   vals : ∀ (i : Nat) (o : Inst), w.insts[i]? = some o → ∀ n v, assocGet o.dict n = some v → v < w.ctx.alloc
   oids : ∀ (i : Nat) (o : Inst), w.insts[i]? = some o → o.oid < w.ctx.alloc ∧ heapGet w.ctx.heap o.oid = none
+  distinct : ∀ (a b : Nat) (oa ob : Inst), w.insts[a]? = some oa → w.insts[b]? = some ob → oa.oid = ob.oid → a = b
   /-- mutable objects reachable from two instances are disjoint -/
   sepI : ∀ a b x, a ≠ b → w.ReachIdx a x → w.Mut x → ¬ w.ReachIdx b x
   /-- … and are not default templates -/
@@ -242,7 +243,20 @@ theorem Extends.good {E : Env} {P i : Nat} {extra : TraitCore → Prop} {w w' : 
     unfold World.Mut at hm
     rw [e.grow.old o.oid this.1, this.2] at hm
     simp at hm
-  refine ⟨e.grow.wf, g.three, ?_, ?_, ?_, ?_, ?_, ?_⟩
+  have hoidOf : ∀ (j : Nat) (o' : Inst), w'.insts[j]? = some o' → ∃ o, w.insts[j]? = some o ∧ o'.oid = o.oid := by
+    intro j o' ho'
+    by_cases hji : j = i
+    · subst hji
+      obtain ⟨o, ho, hoid, -, -⟩ := e.self o' ho'
+      exact ⟨o, ho, hoid⟩
+    · rw [e.others j hji] at ho'
+      exact ⟨o', ho', rfl⟩
+  refine ⟨e.grow.wf, g.three, ?_, ?_, ?_, ?_, ?dist, ?_, ?_⟩
+  case dist =>
+    intro a b oa ob ha hb hab
+    obtain ⟨oa0, ha0, ea⟩ := hoidOf a oa ha
+    obtain ⟨ob0, hb0, eb⟩ := hoidOf b ob hb
+    exact g.distinct a b oa0 ob0 ha0 hb0 (by rw [← ea, ← eb]; exact hab)
   · -- cores
     intro t ht
     rcases e.cores t ht with h | h
@@ -440,7 +454,7 @@ theorem mutate_good {E : Env} {P : Nat} {w : World} (g : Good E P w) (i : Nat) (
         unfold World.Mut
         simp only []
         rw [hsome y]
-      refine ⟨⟨g.wf.base, ?_⟩, g.three, ?_, g.templ, g.vals, ?_, ?_, ?_⟩
+      refine ⟨⟨g.wf.base, ?_⟩, g.three, ?_, g.templ, g.vals, ?_, g.distinct, ?_, ?_⟩
       · intro y zs hy
         simp only [] at hy
         by_cases hyc : y = cid
@@ -518,8 +532,29 @@ theorem new_good {E : Env} {P : Nat} {w : World} (g : Good E P w) (k : Nat) : Go
         simp at hp
   have hheap : (w.withNew k).ctx.heap = w.ctx.heap := rfl
   have halloc : (w.withNew k).ctx.alloc = w.ctx.alloc + 1 := rfl
+  have hgetn : ∀ (j : Nat) (o : Inst), (w.withNew k).insts[j]? = some o →
+      w.insts[j]? = some o ∨ (j = w.insts.length ∧ o = { oid := w.ctx.alloc, cls := k }) := by
+    intro j o ho
+    unfold World.withNew at ho
+    simp only [] at ho
+    rcases Nat.lt_or_ge j w.insts.length with h | h
+    · rw [List.getElem?_append_left h] at ho; exact Or.inl ho
+    · rw [List.getElem?_append_right h] at ho
+      right
+      cases hj : j - w.insts.length with
+      | zero => rw [hj] at ho; simp at ho; exact ⟨by omega, ho.symm⟩
+      | succ m => rw [hj] at ho; simp at ho
   refine ⟨⟨Nat.le_succ_of_le g.wf.base, fun x ys h => ?_⟩, g.three, fun t ht => ?_, fun t ht hk => ?_,
-    fun j o ho n v hv => ?_, fun j o ho => ?_, fun a b x hab ha hm hb => ?_, fun a x ha hm t ht hk => ?_⟩
+    fun j o ho n v hv => ?_, fun j o ho => ?_, ?dist, fun a b x hab ha hm hb => ?_, fun a x ha hm t ht hk => ?_⟩
+  case dist =>
+    intro a b oa ob ha hb hab
+    rcases hgetn a oa ha with h1 | ⟨h1, rfl⟩
+    · rcases hgetn b ob hb with h2 | ⟨h2, rfl⟩
+      · exact g.distinct a b oa ob h1 h2 hab
+      · exact absurd hab (Nat.ne_of_lt (g.oids a oa h1).1)
+    · rcases hgetn b ob hb with h2 | ⟨h2, rfl⟩
+      · exact absurd hab.symm (Nat.ne_of_lt (g.oids b ob h2).1)
+      · rw [h1, h2]
   · obtain ⟨a1, a2, a3⟩ := g.wf.heap x ys h
     exact ⟨a1, Nat.lt_succ_of_lt a2, fun y hy => Nat.lt_succ_of_lt (a3 y hy)⟩
   · have gc := g.cores t (hcores t ht)
